@@ -82,14 +82,15 @@ func ZZ_C15_select() {
 		})
 		nodes[i] = n
 	}
-	// previously selected list: up to two distinct names, possibly of a node that no longer exists
+	// previously selected list: up to two names — possibly of a node that no longer exists, possibly the same
+	// name twice (a list written by an older version or edited by hand: the result has distinct names all the same)
 	var prev []string
 	names := []string{"node0", "node1", "node2", "ghost"}
 	p0 := zzConcInt(nondet.Int("prev0", 0, 4), 0, 4) // 4 = none
 	if p0 < 4 {
 		prev = append(prev, names[p0])
 		p1 := zzConcInt(nondet.Int("prev1", 0, 4), 0, 4)
-		if p1 < 4 && p1 != p0 {
+		if p1 < 4 {
 			prev = append(prev, names[p1])
 		}
 	}
